@@ -107,6 +107,13 @@ fn main() {
                 2
             }
         },
+        "overlap" => match stress::overlap(&kv["out"]) {
+            Ok(c) => c,
+            Err(e) => {
+                eprintln!("harness error: {e}");
+                2
+            }
+        },
         "stress" => {
             let opts = stress::Opts {
                 cancelable: kv.contains_key("cancelable"),
